@@ -488,3 +488,18 @@ Lemma configs_exist :
   valid_cfg (dims EVario) cfg_vario_latlon /\ valid_cfg (dims EVarioAxis) cfg_axis_mask
   /\ valid_cfg (dims EFieldCall) cfg_field_call /\ valid_cfg (dims ETransform) cfg_transform.
 Proof. unfold valid_cfg; simpl; repeat split; repeat constructor. Qed.
+
+(* what the harness compares against: the canonical prediction of the repaired programs never lists a
+   written caller / earlier buffer *)
+Lemma filter_none {A} (f : A -> bool) l : Forall (fun x => f x = false) l -> filter f l = [].
+Proof. induction 1 as [|x l Hx _ IH]; simpl; auto. now rewrite Hx. Qed.
+
+Lemma predicted_writes_empty e c : valid_cfg (dims e) c -> written_initial true e c = [].
+Proof.
+  intros Hc. unfold written_initial, final_state.
+  pose proof (run_log unit_interp (program e c) (init_state e c) (program_safe e c Hc) eq_refl) as H.
+  assert (L : length (heap (init_state e c)) = nargs e + length (pre_attrs e c)) by (simpl; apply repeat_length).
+  rewrite L in H. fold (program e c).
+  rewrite filter_none; [reflexivity|].
+  eapply Forall_impl; [|exact H]. intros x Hx. apply Nat.ltb_ge. exact Hx.
+Qed.
